@@ -9,6 +9,17 @@ EXTENDS LatCurves, SequencesExt, FiniteSetsExt
 GenLen == 24
 GenMax == 9972          \* vectors are taken modulo small numbers; 9973 is prime
 
+\* TLC's RandomSubset over a set of more than 2^63 elements (such as [1..24 -> 0..9972]) is NOT uniform: it returns
+\* vectors whose leading entries are all equal (measured).  Scenario generators therefore sample integer SEEDS,
+\*     s \in RandomSubset(Num, GenSeeds),
+\* and expand each seed into a vector with two linear congruential generators modulo the primes 9973 and 9967
+\* (all products stay below 2^31).
+GenSeeds == 1..2000000000
+RECURSIVE Lcg_(_, _, _, _, _)
+Lcg_(x, a, c, p, i) == IF i = 0 THEN x ELSE Lcg_((a * x + c) % p, a, c, p, i - 1)
+GenVec(seed) == LET x0 == seed % 9973 y0 == (seed \div 9973) % 9967 IN
+                [i \in 1..GenLen |-> (Lcg_(x0, 1237, 311, 9973, i + 2) + Lcg_(y0, 2411, 1777, 9967, 2 * i + 1)) % 9973]
+
 \* ---- ellipse families (lattice units): radii, rotation; FamSeq = the lattice points on the ellipse (centre 0) ----
 Fams == << [rad |-> <<1, 1>>, rot |-> 0], [rad |-> <<2, 2>>, rot |-> 0], [rad |-> <<5, 5>>, rot |-> 0],
            [rad |-> <<2, 1>>, rot |-> 0], [rad |-> <<1, 2>>, rot |-> 0], [rad |-> <<10, 5>>, rot |-> 0],
